@@ -587,7 +587,8 @@ func checkC17(c C17Case) (o Outcome) {
 					return o
 				}
 			case "t", "i":
-				if f != x.text {
+				// the label, not its indentation or padding, is what the record carries
+				if strings.TrimSpace(f) != strings.TrimSpace(x.text) {
 					o.Violation = V("csv-cell", "CSV record %d field %d is %q, the table cell (row %d) holds the text %q", k+1, ci+1, f, keptIdx[k], x.text)
 					return o
 				}
@@ -906,7 +907,7 @@ func checkC17CLI(c C17CLICase) (o Outcome) {
 				if ci >= len(recs[ri]) {
 					break
 				}
-				if (ri == 0 || ci < 2) && rows[ri][ci] != recs[ri][ci] {
+				if (ri == 0 || ci < 2) && rows[ri][ci] != strings.TrimSpace(recs[ri][ci]) {
 					return ri, ci, false
 				}
 			}
